@@ -268,4 +268,11 @@ def r7(ctx):
     forward_data_context(ctx, "C17.R7", "data")
 
 
-RULES = [("C17.R1", r1), ("C17.R2", r2), ("C17.R3", r3), ("C17.R4", r4), ("C17.R5", r5), ("C17.R6", r6), ("C17.R7", r7)]
+
+def f1(ctx):
+    """generic same-name parameter forwarding over this property's modules (see shared.generic_forwarding)."""
+    from . import shared as _sh
+    _sh.generic_forwarding(ctx, "C17.F1", _sh.PROPERTY_MODULES["C17"])
+
+
+RULES = [("C17.R1", r1), ("C17.R2", r2), ("C17.R3", r3), ("C17.R4", r4), ("C17.R5", r5), ("C17.R6", r6), ("C17.R7", r7), ("C17.F1", f1)]
